@@ -75,6 +75,10 @@ SetOps == {"SetRD", "SetWD", "SetD"}
 \*   cw1,cw2  CloseWriteWithError: writeError.Store ; closeRemoteDone   pipe.go:335-336
 \*   sr1,sr2  SetReadDeadline: closed check ; readDeadline.set          pipe.go:301-304
 \*   sw1,sw2  SetWriteDeadline: closed check ; writeDeadline.set        pipe.go:310-313
+\*   SetDeadline (pipe.go:290-297) and Close/CloseWithError (pipe.go:340-343) are COMBINED operations with a code
+\*   path of their own: op = "SetD" runs sr1 [sr2] sw1 [sw2] and op = "Close" runs cr1 cr2 cw1 cw2 inside ONE call.
+\*   The second half is entered whatever the first half answered: a refused read half (sr1 after the own
+\*   CloseRead) still goes on to sw1, it does not return.  See SetDeadlineStep / SetDCoversBothHalves.
 \*   ret   the call has produced its result; Ret(t) is the instant the caller observes it
 Idle == [pc |-> "idle", op |-> "none", k |-> "-", sz |-> 0, n |-> 0, once |-> FALSE, dlc |-> "-",
          got |-> 0, ln |-> 0, from |-> "-", late |-> FALSE, res |-> "-"]
@@ -377,6 +381,13 @@ SW2(t) ==
     /\ UNCHANGED <<done, err, mu, cnt, ncalls, panic>>
     /\ Internal("SW2", t)
 
+\* SetDeadline(t) (pipe.go:290-297): rerr := SetReadDeadline(t); werr := SetWriteDeadline(t); rerr if non-nil,
+\* else werr.  It is ONE call that walks through both halves; the read half's refusal is remembered in .res and
+\* the call continues at sw1.  The steps of a SetD call (a disjunct of Step on its own):
+SetDeadlineStep(t) == th[t].op = "SetD" /\ (SR1(t) \/ SR2(t) \/ SW1(t) \/ SW2(t))
+\* Close() (pipe.go:340-343, 365-368): CloseReadWithError ; CloseWriteWithError, again ONE call
+CloseBothStep(t) == th[t].op = "Close" /\ (CR1(t) \/ CR2(t) \/ CW1(t) \/ CW2(t))
+
 \* the time.AfterFunc callback: close(d.cancel).  Closing a closed channel panics.
 Fire(e, w) ==
     /\ dl[e][w].timer
@@ -396,7 +407,12 @@ CallAny(t) ==
 Step(t) ==   \* every step of a running call except the rendezvous with a partner
     \/ W1(t) \/ W2(t) \/ WLock(t) \/ WPark(t) \/ WDone(t) \/ WTimeout(t) \/ WZero(t)
     \/ R1(t) \/ R2(t) \/ RPark(t) \/ RDone(t) \/ RTimeout(t) \/ CountBack(t)
-    \/ CR1(t) \/ CR2(t) \/ CW1(t) \/ CW2(t) \/ SR1(t) \/ SR2(t) \/ SW1(t) \/ SW2(t)
+    \/ th[t].op = "CloseRead" /\ (CR1(t) \/ CR2(t))
+    \/ th[t].op = "CloseWrite" /\ (CW1(t) \/ CW2(t))
+    \/ CloseBothStep(t)
+    \/ th[t].op = "SetRD" /\ (SR1(t) \/ SR2(t))
+    \/ th[t].op = "SetWD" /\ (SW1(t) \/ SW2(t))
+    \/ SetDeadlineStep(t)
 
 InternalNext ==
     \/ \E t \in Threads : Step(t) \/ Ret(t)
@@ -512,6 +528,25 @@ DeadlineUnblocks ==
     \A t \in Threads : th[t].pc \in {"wpark", "rpark"} /\ DlFired(t) => CanStep(t)
 \* a timer exists only for an open channel (so its callback never closes a closed channel)
 TimerOnlyIfOpen == \A e \in Ends, w \in {"rd", "wr"} : dl[e][w].timer => ~dl[e][w].closed
+
+\* Combined operations reach both halves in every half-close state (the binding replays exactly these edges):
+\* a SetD call returns only from the write half (sw1 refused because the WRITE direction is shut down by the own
+\* CloseWrite, or sw2 after arming it), never from the read half; when it returns from sw2 the write deadline is what
+\* the call asked for, and unless the read half was refused the read deadline was set by the same call before.
+\* A Close call returns with both directions shut down.
+SetDCoversBothHalves ==
+    [][ \A t \in Threads : th[t].op = "SetD" /\ th[t].pc # "ret" /\ th'[t].pc = "ret" =>
+            /\ th[t].pc \in {"sw1", "sw2"}
+            /\ th[t].pc = "sw1" => done[End(t)] /\ err[End(t)] = "eof"
+            /\ th[t].pc = "sw2" => dl'[End(t)]["wr"] = SetDl(End(t), "wr", th[t].k) ]_vars
+    /\ [][ \A t \in Threads : th[t].op = "SetD" /\ th[t].pc = "sr1" /\ th'[t].pc # "sr1" =>
+            th'[t].pc \in {"sr2", "sw1"} ]_vars
+CloseCoversBothHalves ==
+    [][ \A t \in Threads : th[t].op = "Close" /\ th[t].pc # "ret" /\ th'[t].pc = "ret" =>
+            \A d \in Ends : done'[d] /\ err'[d] # "unset" ]_vars
+\* ... so a Write (Read) that starts after a SetD(past) of its end returned cannot park: it fails with the timeout or
+\* with the shutdown of its direction, in every half-close state.  ghost-free form: a parked call's deadline channel
+\* is open or the call can move (DeadlineUnblocks), and after SetD the channel is closed unless re-armed.
 
 \* No deadlock: every call that cannot move is parked in a select with its done channel and its
 \* deadline channel open (so a close or a deadline of that direction enables it again), or waits
